@@ -576,8 +576,33 @@ def build(repo: str) -> Dict[str, Any]:
                 problems.append(f"{cls}.{attr}: metamodel attribute never written")
         extra = sorted(set(rr) - {w["member"] for w in wrows} - {"modelType", "type"})
         table.append({"cls": cls, "tag": tag, "rows": rows_out, "readerOnlyMembers": extra})
+    # recover points of the failsafe reader (C09)
+    rmod = parse(os.path.join(repo, "sdk/basyx/aas/adapter/json/json_deserialization.py"))
+    handler_catch: Dict[str, List[str]] = {}
+    for fn in ast.walk(rmod):
+        if isinstance(fn, ast.FunctionDef) and fn.name in ("_construct_lang_string_set", "_construct_value_list", "_construct_operation"):
+            for n in ast.walk(fn):
+                if isinstance(n, ast.ExceptHandler) and n.type is not None:
+                    handler_catch[fn.name] = [src(e) for e in (n.type.elts if isinstance(n.type, ast.Tuple) else [n.type])]
+    rec = []
+    for ct in table:
+        rr = []
+        for r in ct["rows"]:
+            k = r["kind"]
+            item, caught = False, []
+            if isinstance(k, list) and k[0] == "list" and isinstance(k[1], list):
+                if k[1][0] == "poly" and set(k[1][1]) == set(SME_POLY):
+                    item = True                                            # object_hook boundary + _expect_type skip
+                elif k[1] == ["node", "LangString"] and "_construct_lang_string_set" in handler_catch:
+                    item, caught = True, handler_catch["_construct_lang_string_set"]
+                elif k[1] == ["node", "ValueReferencePair"] and ct["cls"] == "ValueList" and "_construct_value_list" in handler_catch:
+                    item, caught = True, handler_catch["_construct_value_list"]
+                elif k[1] == ["node", "OperationVariable"] and "_construct_operation" in handler_catch:
+                    item, caught = True, handler_catch["_construct_operation"]
+            rr.append({"member": r["member"], "recover": False, "itemRecover": item, "itemCaught": caught})
+        rec.append({"cls": ct["cls"], "rows": rr})
     return {"table": table, "enums": enums, "xsdNames": xsd_names(repo), "unrecognised": unrec, "problems": problems,
-            "catch": catch, "dispatch": dispatch, "parsers": parsers}
+            "catch": catch, "dispatch": dispatch, "parsers": parsers, "recPoints": rec}
 
 
 # ------------------------------------------------------------------------------------------ Lean emission
@@ -648,6 +673,17 @@ def emit_lean(data: Dict[str, Any], name: str = "jsonTable", namespace: str = "B
     out.append("")
     out.append("/-- exception kinds caught at the object boundary in failsafe mode -/")
     out.append("def objectHookCatch : List String := [" + ", ".join(lstr(c) for c in data["catch"]) + "]")
+    out.append("")
+    out.append("/-- classes that are object_hook boundaries (written with a modelType) -/")
+    out.append("def hookClasses : List String := [" + ", ".join(lstr(ct["cls"]) for ct in data["table"]
+                                                                  if ct["tag"] and ct["cls"] not in REF_POLY and namespace.endswith("Json")) + "]")
+    out.append("")
+    out.append("/-- recover points of the failsafe reader: (class, [(member, recover, itemRecover, item catch tuple)]) -/")
+    out.append("def recPoints : List (String × List (String × Bool × Bool × List String)) := [")
+    out.append(",\n".join(
+        f"  ({lstr(rc['cls'])}, [" + ", ".join(
+            f"({lstr(r['member'])}, {b(r['recover'])}, {b(r['itemRecover'])}, [{', '.join(lstr(c) for c in r['itemCaught'])}])"
+            for r in rc["rows"] if r["recover"] or r["itemRecover"]) + "])" for rc in data.get("recPoints", [])) + "]")
     out.append("")
     out.append("/-- SPEC side (py/vf/meta.py DETACHABLE): per class the members that hold detachable parts -/")
     spec = []
